@@ -104,6 +104,23 @@ CHECKS["C06"] = dict(
     note="Partial: timer goroutine scheduling is runtime; one-second granularity. Trusted: Lean kernel, harness clock readings, driver.",
 )
 
+CHECKS["C11"] = dict(
+    category="proof", design_ref="DESIGN.md §6 C11", engine="exec",
+    technique="Lean 4 executable model of the set commands with kernel-checked set-algebra theorems (membership laws, union/intersection/difference, "
+              "STORE semantics, non-empty/duplicate-free invariant, checker soundness for random commands) + differential correspondence on generated programs",
+    text="The 14 set executors are modelled as total Lean functions on the shared keyspace (Exec/Set.lean; sets as duplicate-free lists, algebra "
+         "from Ds/SetOps.lean). Kernel-checked theorems (Props/C11.lean): SADD/SREM one-step membership laws and cardinality replies; SUNION/SINTER/"
+         "SDIFF replies are exactly the mathematical operations with missing keys as empty sets; S*STORE leaves exactly the result in the "
+         "destination (deleted when empty, no deadline, any previous type) and nothing else changes; SMOVE moves or changes nothing and conserves "
+         "the union; every command preserves 'every set is non-empty and duplicate-free'; SPOP/SRANDMEMBER run in checker mode and acceptance "
+         "implies the reported members are current members with the right count/distinctness and SPOP removes exactly them. The model is tied to "
+         "the Go executors by generated programs over existing, missing, wrong-typed, long-TTL and already-expired keys with members including "
+         "the empty string and binary bytes, count extremes and arity damage, comparing every reply and the dump of the touched keys.",
+    note="Trusted: Lean kernel (propext, Classical.choice, Quot.sound), harness/driver/dump hook, strconv.Atoi mirrored by the model's integer parser. "
+         "Error replies compared by class; SPOP/SRANDMEMBER member choice is the implementation's (validated, then adopted); reply order of "
+         "SMEMBERS/SUNION/SINTER/SDIFF compared after sorting; a negative SRANDMEMBER count below -2^20 may be refused (grey clause).",
+)
+
 NOT_YET = "check not built yet in this round; see DESIGN.md §8"
 NOT_APPLICABLE = {}
 
